@@ -3,6 +3,7 @@ package pnet
 import (
 	"context"
 	"encoding/json"
+	"errors"
 	"fmt"
 	"os"
 	"path/filepath"
@@ -251,14 +252,16 @@ func runLim(c LimCase, cs *kit.CaseStats) error {
 							if err != nil {
 								return err
 							}
-							defer st.Close()
 							st.SetDeadline(time.Now().Add(20 * time.Second))
 							if err := st.WriteID(&gateway.RPCSendTransactions{}); err != nil {
 								return err
 							} else if err := st.WriteRequest(&gateway.RPCSendHeaders{Index: types.ChainIndex{Height: 7, ID: bogus}, Max: 9}); err != nil {
 								return err
 							}
-							return st.ReadResponse(&gateway.RPCSendTransactions{})
+							// hang up the stream: the handler's decoder meets the end of
+							// the stream in the middle of the promised hashes
+							st.Close()
+							return errors.New("stream closed by the client")
 						}()
 					}
 					if err == nil {
